@@ -181,6 +181,7 @@ func exec(r *engine.Rec, name string) func(path []Op, op Op) seqx.Step {
 		for _, p := range path[1:] {
 			nm, mp, _ := step(m, p)
 			_, o := apply(p, s)
+			rt.Protect(fuel, func() { s.AsArray(); s.GetSize(); s.GetIterator(); s.GetCapacity() })
 			if !o.Panicked && !mp {
 				m = nm
 			}
